@@ -58,7 +58,9 @@ def gen_case(rng, k):
     if two_wraps:
         # an observation longer than the wrap period: the counter wraps TWICE (or more) between first and last dump
         W, dt, T = 32.0, 4.0, rng.choice([6, 7, 8])
-        grid4 = [rng.choice([6, 8]) * i for i in range(T)]
+        grid4 = [0]
+        for i in range(T - 1):
+            grid4.append(grid4[-1] + rng.choice([6, 8]))
     true = [T0 + dt / 4 * x for x in grid4]
     # the counter started (sync time) s0 seconds before the first dump
     if strat == 'wrap_inside':
